@@ -704,6 +704,31 @@ func init() {
 				w.Write(ev)
 			}
 		}
+		// sides beyond the largest supported size (the reducer only maps words to 1..n for n <= MaxInt-1): an illegal parameter,
+		// recorded with sides = -1 because the specification's integers cannot hold the number
+		for _, pr := range []struct {
+			fam, src string
+			p        diceP
+		}{
+			{"common", "1d9223372036854775807", diceP{Times: 1, Sides: -1, Mn: -1, Mx: -1}},
+			{"common", "3d9223372036854775807k1", diceP{Times: 3, Sides: -1, Kind: 2, Cnt: 1, Mn: -1, Mx: -1}},
+			{"common", "x = 9223372036854775807; 2d(x)", diceP{Times: 2, Sides: -1, Mn: -1, Mx: -1}},
+			{"wod", "3a10m9223372036854775807", diceP{Pool: 3, Add: 10, Sides: -1, Thr: 8, GE: true, Mn: -1, Mx: -1}},
+			{"dc", "3c10m9223372036854775807", diceP{Pool: 3, Add: 10, Sides: -1, Mn: -1, Mx: -1}},
+		} {
+			vm := newSeededVM(uint64(rng.Int63()))
+			vm.Config.OpCountLimit = 100000
+			resetRolls(nil, false)
+			expectSrc = vm.RandSrc
+			err, pan := runOne(vm, pr.src)
+			ev := diceEv{Ev: "dice", Fam: pr.fam, Via: "vm", Src: pr.src, P: pr.p, Shown: newShown(), Rolls: []rollRec{}, Err: err != nil, Panic: pan != nil}
+			if err == nil && pan == nil {
+				if v, ok := vm.Ret.ReadInt(); ok {
+					ev.Total = int64(v)
+				}
+			}
+			w.Write(ev)
+		}
 		emitSummary(map[string]any{"events": w.c.n})
 		return 0
 	}
